@@ -663,6 +663,7 @@ func gen(r *rand.Rand, thorough bool, i int) []string {
 	}
 	malformed := r.Intn(12) == 0 // keys shorter than keyLength: Open must reject the index
 	var keys [][]byte
+	curDat, idxKeys := 0, map[string]bool{}
 	dup := r.Intn(5) == 0
 	for j := 0; j < n; j++ {
 		k := randKey(r, klen)
@@ -679,6 +680,12 @@ func gen(r *rand.Rand, thorough bool, i int) []string {
 			st, _ = zstd.Compress(c)
 		}
 		ops = append(ops, fmt.Sprintf("write %s %s %s", hx(k), hx(c), hx(st)))
+		curDat += 4 + len(st)
+		idxKeys[string(k)] = true
+	}
+	curIdx := 4
+	for k := range idxKeys {
+		curIdx += 1 + len(k) + 8
 	}
 	if r.Intn(4) == 0 {
 		ops = append(ops, "dat")
@@ -699,9 +706,11 @@ func gen(r *rand.Rand, thorough bool, i int) []string {
 	for s := 0; s < sessions; s++ {
 		switch r.Intn(6) {
 		case 0: // crash inside a WriteData / before the data reached the disk: any prefix of .dat
-			ops = append(ops, fmt.Sprintf("trunc dat %d", r.Intn(40+60*n)))
+			curDat = r.Intn(curDat + 1) // a prefix, never an extension
+			ops = append(ops, fmt.Sprintf("trunc dat %d", curDat))
 		case 1: // torn index file
-			ops = append(ops, fmt.Sprintf("trunc idx %d", r.Intn(5+(klen+9)*n+2)))
+			curIdx = r.Intn(curIdx + 1)
+			ops = append(ops, fmt.Sprintf("trunc idx %d", curIdx))
 		}
 		useMap := r.Intn(5) < 2
 		if useMap {
@@ -782,6 +791,7 @@ func oracle(ops, outs []string) *corr.Violation {
 		datLen    int
 		datCut    int
 		idxIntact bool
+		idxLen    = -1
 		uniform   bool
 		unique    bool
 		opened    bool
@@ -798,6 +808,7 @@ func oracle(ops, outs []string) *corr.Violation {
 			klen, _ = strconv.Atoi(w[1])
 			ref, where, order, keysOrder = map[string]string{}, map[string]ext{}, nil, nil
 			datLen, datCut, idxIntact, uniform, unique, opened = 0, 0, false, true, true, false
+			idxLen = -1
 			judged = klen <= 118
 		case "write":
 			if o != "ok" {
@@ -832,11 +843,15 @@ func oracle(ops, outs []string) *corr.Violation {
 				}
 			} else {
 				full := 4 + len(ref)*(klen+9)
-				if n < full {
-					idxIntact = false
-				} else if n > full {
-					judged = false // file extended with zeros: not a crash point
+				if idxLen < 0 {
+					idxLen = full
 				}
+				if n > idxLen {
+					judged = false // file extended with zeros: not a crash point
+				} else if n < full {
+					idxIntact = false
+				}
+				idxLen = n
 			}
 		case "rmidx":
 			idxIntact = false
